@@ -675,7 +675,14 @@ class StateNode(Generic[TContext, TEvent]):
                 history_kind = "shallow"
             self.history = history_kind
         #: Default target used when a history state has nothing recorded yet.
-        self.target_str: Optional[str] = config.get("target")
+        default_target = config.get("target")
+        if default_target is not None and not isinstance(default_target, str):
+            raise InvalidConfigError(
+                f"State '{self.id}' has an invalid 'target' of type "
+                f"'{type(default_target).__name__}'. Expected the name or id "
+                f"of a state as a string."
+            )
+        self.target_str: Optional[str] = default_target
 
         self.entry = self._parse_actions(config.get("entry"))
         self.exit = self._parse_actions(config.get("exit"))
